@@ -67,6 +67,10 @@ CLAIMED["C10"] = ("mirsym over the whitespace sources (line_ending_character, cr
     "bounded symbolic model checking of the whitespace sources: newline trivia is exactly the configured line ending; indent trivia is tabs(level) or spaces(level*indent_width); for EVERY comment / shebang / long-string text of <= 6 (thorough 8) characters written with LF or CRLF the emitted text has no trailing white space resp. only configured line breaks and is otherwise unchanged; input whitespace trivia is never copied; EOF handling pops trailing whitespace and appends one newline; no other place of the crate builds whitespace tokens, tabs, or spaces(n>1)",
     "trusts rustc's MIR printer, mirsym, z3, full_moon's spaces()/tabs(); that every layout path places indent trivia after each newline is NOT decided (only the sources are)", "5/C10")
 
+CLAIMED["C02"] = ("mirsym over EVERY library function that maps a full_moon AST struct/enum `&T` to a `T` (all layout decisions symbolic) with a provenance analysis of the builder chain (`T::with_x`, `T::new`) against the input's accessors; z3 decides path feasibility, optional-child presence and node-kind equality; C04's number kernel and C05's composer (small plan) reused; token-level normal-form replay over a syntax corpus",
+    "bounded symbolic model checking of one inductive step per formatter: on every control path of ~90 formatter functions (loops visited <= 2 times) every child slot of the returned node derives from the input's same-named child (an optional child is dropped only when absent in the input; an empty child is replaced only under an emptiness test), enum formatters return the node kind they received, call-site guards of lossy helpers hold; number rewriting and parenthesis removal as in C04/C05 (<=2 operators here)",
+    "trusts rustc's MIR printer, mirsym, z3, full_moon's builder/accessor pairs as parsed from its source; provenance is structural (a slot filled from a value computed from the right child counts as that child); symbol TEXT, trivia (C03) and Punctuated internals are outside", "5/C02")
+
 CLAIMED["C15"] = ("mirsym over find_config_file (recursion inlined) / lookup_config_file_in_directory / find_toml_file / load_configuration(_for_stdin) with the file system abstracted to a symbolic directory chain and a map-summarised cache, two successive lookups; z3 against the documented precedence; directory-tree replay",
     "bounded symbolic model checking of the precedence kernels: for every existence pattern of stylua.toml/.stylua.toml on a chain of 4 directories, every cwd position or parent search: the nearest file up to the root (or XDG/HOME) is chosen, a cached second lookup (same directory or its parent) agrees; forced > found > editorconfig (unless disabled) > defaults",
     "trusts rustc's MIR printer, mirsym + Path/HashMap summaries, z3; toml decoding, ec4rs discovery and the XDG/HOME probing order are outside", "5/C15-C20")
